@@ -32,7 +32,7 @@ ENGINE = {"name": "kv",
 AS_IMPL = {
     "file": ["WalReplayIgnoresIndex", "WalReplaySkipsEmptyValues", "WalClearedAfterReplayWithoutCheckpoint",
              "AppliedUpdatedAfterData", "SnapshotLabelBehindContent", "PlainPutKeepsTtl", "CasKeepsTtl",
-             "TtlTablePersistedOnStopOnly", "WalReplayWithoutLease", "ReloadDropsDueTtl", "CleanupKeepsWal"],
+             "TtlTablePersistedOnStopOnly", "WalReplayWithoutLease", "ReloadDropsDueTtl", "CleanupKeepsWal", "FileSnapshotTtlSectionUnreadable"],
     "rocks": ["AppliedIndexNotWrittenWithData", "ScanRevisionReadAfterIteration", "AppliedUpdatedAfterData",
               "EmptyPrefixScanReturnsNothing", "SnapshotLabelBehindContent", "PlainPutKeepsTtl", "CasKeepsTtl",
               "TtlTablePersistedOnStopOnly", "ReloadDropsDueTtl"],
